@@ -1,3 +1,4 @@
+import FractopoModel.Generated.ValidatorMethods
 import FractopoModel.Spec.Defects
 import FractopoModel.Generated.JunctionShift
 import FractopoModel.Generated.ValidatorTable
@@ -173,5 +174,21 @@ example :
       [[10, 11], [11, 12], [20, 21]] (1 / 100) (11 / 10) 1 = [0, 1] := by decide +kernel
 
 example : Gen.junction_shift 5 2 2 = 3 ∧ Gen.junction_shift 1 2 2 = 1 := by decide
+
+/-- **MULTIPLE CROSSCUTS and CUTS ITSELF** (`MultipleCrosscutValidator.validation_method`, `SimpleGeometryValidator.validation_method`,
+regenerated): a trace is reported MULTIPLE CROSSCUTS iff some candidate meets it at all and some candidate's intersection with it is a
+MultiPoint of more than two points; CUTS ITSELF iff it is not simple or is a ring. -/
+theorem C02_generated_crosscut {L : Type} (meets : L → L → Bool) (ip : L → L → Option Nat) (geom : L) (cands : List L) (simple ring : Bool) :
+    Gen.crosscut_validation meets ip geom cands =
+      (!(cands.any fun tc => meets tc geom) || !(cands.any fun tc => match ip tc geom with | some n => decide (n > 2) | none => false)) ∧
+    Gen.simple_geometry_validation simple ring = (simple && !ring) := by
+  constructor
+  · unfold Gen.crosscut_validation
+    simp only [List.any_map, Function.comp_def]
+    cases cands.any (fun tc => meets tc geom)
+    · simp
+    · simp only [Bool.not_true, Bool.false_eq_true, if_false, Bool.false_or]
+      congr 2
+  · rfl
 
 end C02
